@@ -90,9 +90,8 @@ type seqStats struct {
 	resets, overQuota, whitelisted, addrs, boundaryAdjusted int
 }
 
-// checkSeq runs the operation sequence against the limiter and against a reference model
-// written from the property statement: a map of counters per interval; the interval restarts at the
-// first request made after it has elapsed (the limiter documents resetTime/EndTime = resetTime+interval).
+// checkSeq runs the operation sequence against the limiter and against reference models
+// written from the property statement: a map of counters per interval and a restart policy.
 func checkSeq(c SeqCase) (*hx.Violation, seqStats) {
 	var st seqStats
 	il, err := app.NewIPRequestLimiter(c.Max, time.Duration(c.IntervalNs), t0, c.Whitelist, "")
@@ -118,48 +117,91 @@ func checkSeq(c SeqCase) (*hx.Violation, seqStats) {
 		}
 		return false
 	}
-	model := map[string]int{}
-	reset := t0
+	// Two restart policies satisfy the statement ("counters restart only when the interval has elapsed"): the interval
+	// restarts at the first request after it elapsed (sliding, what the code documents through ResetTime/EndTime), or
+	// intervals lie on a fixed grid of multiples of the interval. The history must agree with one of them throughout.
+	type policy struct {
+		name  string
+		model map[string]int
+		reset time.Time
+		alive bool
+		why   string
+	}
+	pols := []*policy{{name: "sliding", model: map[string]int{}, reset: t0, alive: true}, {name: "grid", model: map[string]int{}, reset: t0, alive: true}}
 	now := t0
 	seen := map[string]bool{}
+	iv := time.Duration(c.IntervalNs)
 	for i, op := range c.Ops {
 		now = now.Add(time.Duration(op.DtNs))
-		if now.Sub(reset) == time.Duration(c.IntervalNs) {
-			// the single instant "exactly one interval after the restart" is ambiguous in the statement
-			// ("when the interval has elapsed"): step over it.
-			now = now.Add(1)
-			st.boundaryAdjusted++
+		for _, p := range pols {
+			if d := now.Sub(p.reset); d == iv || (p.name == "grid" && d > iv && d%iv == 0) {
+				// the single instant "exactly on an interval boundary" is ambiguous in the statement: step over it.
+				now = now.Add(1)
+				st.boundaryAdjusted++
+			}
 		}
+		var nr, max int
+		var ok bool
+		var cnt int
+		var end time.Time
 		switch op.Kind {
 		case "inc":
-			if now.Sub(reset) > time.Duration(c.IntervalNs) {
-				model = map[string]int{}
-				reset = now
-				st.resets++
-			}
-			model[op.IP]++
-			wantNr := model[op.IP]
-			wantMax := c.Max
-			wantOK := wantNr <= c.Max
-			if white(op.IP) {
-				wantOK, wantMax = true, -1
-				st.whitelisted++
-			} else if !wantOK {
-				st.overQuota++
-			}
-			nr, max, ok := il.Inc(now, op.IP)
-			if nr != wantNr || max != wantMax || ok != wantOK {
-				return hx.V("inc-mismatch", "op %d Inc(+%dns,%q) = (%d,%d,%v), model (%d,%d,%v)", i, now.Sub(t0), op.IP, nr, max, ok, wantNr, wantMax, wantOK), st
-			}
+			nr, max, ok = il.Inc(now, op.IP)
 			seen[op.IP] = true
 		case "count":
-			if got := il.Count(op.IP); got != model[op.IP] {
-				return hx.V("count-mismatch", "op %d Count(%q)=%d, model %d", i, op.IP, got, model[op.IP]), st
-			}
+			cnt = il.Count(op.IP)
 		case "end":
-			if got, want := il.EndTime(), reset.Add(time.Duration(c.IntervalNs)); !got.Equal(want) {
-				return hx.V("endtime-mismatch", "op %d EndTime=%v, model %v", i, got, want), st
+			end = il.EndTime()
+		}
+		for _, p := range pols {
+			if !p.alive {
+				continue
 			}
+			fail := func(format string, a ...any) {
+				p.alive = false
+				p.why = fmt.Sprintf("op %d: ", i) + fmt.Sprintf(format, a...)
+			}
+			switch op.Kind {
+			case "inc":
+				if now.Sub(p.reset) > iv {
+					p.model = map[string]int{}
+					if p.name == "sliding" {
+						p.reset = now
+					} else {
+						p.reset = p.reset.Add(now.Sub(p.reset) / iv * iv)
+						if !now.After(p.reset) { // exactly on the grid cannot happen (stepped over)
+							p.reset = p.reset.Add(-iv)
+						}
+					}
+					if p.name == "sliding" {
+						st.resets++
+					}
+				}
+				p.model[op.IP]++
+				wantNr, wantMax, wantOK := p.model[op.IP], c.Max, p.model[op.IP] <= c.Max
+				if white(op.IP) {
+					wantOK, wantMax = true, -1
+					if p.name == "sliding" {
+						st.whitelisted++
+					}
+				} else if !wantOK && p.name == "sliding" {
+					st.overQuota++
+				}
+				if nr != wantNr || max != wantMax || ok != wantOK {
+					fail("Inc(+%dns,%q) = (%d,%d,%v), %s model (%d,%d,%v)", now.Sub(t0), op.IP, nr, max, ok, p.name, wantNr, wantMax, wantOK)
+				}
+			case "count":
+				if cnt != p.model[op.IP] {
+					fail("Count(%q)=%d, %s model %d", op.IP, cnt, p.name, p.model[op.IP])
+				}
+			case "end":
+				if want := p.reset.Add(iv); !end.Equal(want) {
+					fail("EndTime=%v, %s model %v", end, p.name, want)
+				}
+			}
+		}
+		if !pols[0].alive && !pols[1].alive {
+			return hx.V("history-matches-no-restart-policy", "%s | %s", pols[0].why, pols[1].why), st
 		}
 	}
 	st.addrs = len(seen)
@@ -364,6 +406,94 @@ func TestC20Middleware(t *testing.T) {
 			if v := checkMW(c); v != nil {
 				run.Fail(rt, c, v)
 			}
+		}
+	})
+}
+
+// ---- concurrent first requests after the interval has elapsed: the restart must happen exactly once ----
+
+type RollCase struct {
+	Goroutines int  `json:"goroutines"`
+	Rounds     int  `json:"rounds"`
+	LogFile    bool `json:"log_file"`
+	Max        int  `json:"max"`
+}
+
+func checkRoll(c RollCase, dir string) *hx.Violation {
+	logFile := ""
+	if c.LogFile {
+		logFile = dir + "/reqlimit.log"
+	}
+	il, err := app.NewIPRequestLimiter(c.Max, time.Second, t0, "", logFile)
+	if err != nil {
+		return hx.V("harness", "%v", err)
+	}
+	now := t0
+	for r := 0; r < c.Rounds; r++ {
+		now = now.Add(time.Second + time.Millisecond) // the interval has elapsed for every goroutine of this round
+		got := make([]int, c.Goroutines)
+		oks := make([]bool, c.Goroutines)
+		var wg sync.WaitGroup
+		start := make(chan struct{})
+		for g := 0; g < c.Goroutines; g++ {
+			wg.Add(1)
+			go func(g int) {
+				defer wg.Done()
+				<-start
+				got[g], _, oks[g] = il.Inc(now, "10.0.0.1")
+			}(g)
+		}
+		close(start)
+		wg.Wait()
+		nrs := append([]int{}, got...)
+		sort.Ints(nrs)
+		passed := 0
+		for i, n := range nrs {
+			if n != i+1 {
+				return hx.V("rollover-counters", "round %d: %d concurrent first requests after the interval elapsed got counters %v, expected exactly 1..%d", r, c.Goroutines, nrs, c.Goroutines)
+			}
+		}
+		for g := range oks {
+			if oks[g] != (got[g] <= c.Max) {
+				return hx.V("rollover-ok", "round %d: counter %d max %d ok=%v", r, got[g], c.Max, oks[g])
+			}
+			if oks[g] {
+				passed++
+			}
+		}
+		if want := min(c.Max, c.Goroutines); passed != want {
+			return hx.V("rollover-passed", "round %d: %d requests passed, quota %d", r, passed, want)
+		}
+		if n := il.Count("10.0.0.1"); n != c.Goroutines {
+			return hx.V("rollover-count", "round %d: Count=%d after %d requests in the new interval", r, n, c.Goroutines)
+		}
+	}
+	return nil
+}
+
+func TestC20Rollover(t *testing.T) {
+	run := hx.Start(t, "C20")
+	defer run.Finish()
+	dir := t.TempDir()
+	if run.Replaying() {
+		if run.ReplayTest() != t.Name() {
+			return
+		}
+		var c RollCase
+		run.ReplayCase(&c)
+		if v := checkRoll(c, dir); v != nil {
+			run.Fail(t, c, v)
+		}
+		return
+	}
+	run.Rapid(t, 3, 40, 400, func(rt *rapid.T) {
+		c := RollCase{Goroutines: rapid.IntRange(2, 12).Draw(rt, "g"), Rounds: rapid.IntRange(5, 40).Draw(rt, "rounds"),
+			LogFile: rapid.Bool().Draw(rt, "log"), Max: rapid.IntRange(1, 6).Draw(rt, "max")}
+		run.Eval("rollover-concurrent")
+		run.NonTrivial(c)
+		run.Sample(map[string]any{"kind": "rollover", "goroutines": c.Goroutines, "rounds": c.Rounds, "log_file": c.LogFile, "max": c.Max})
+		if v := checkRoll(c, dir); v != nil {
+			run.Fail(rt, c, v)
 		}
 	})
 }
